@@ -10,15 +10,16 @@
 package scen19
 
 import (
-	"github.com/thushan/olla/internal/adapter/stats"
 	"bytes"
 	"context"
 	"encoding/hex"
 	"fmt"
+	"github.com/thushan/olla/internal/adapter/stats"
 	"net"
 	"sort"
 	"strings"
 	"sync"
+	"sync/atomic"
 	"time"
 
 	"github.com/thushan/olla/internal/core/domain"
@@ -27,15 +28,16 @@ import (
 )
 
 type Scenario struct {
-	Engine   string        `json:"engine"`
-	Balancer string        `json:"balancer"`
-	Route    string        `json:"route"` // proxy | anthropic | anthropic-stream
-	EPs      []scen.EPSpec `json:"eps"`
-	Clients  int           `json:"clients"`
-	Gated    bool          `json:"gated,omitempty"` // backends hold every request until all clients are held
-	IdleMin   int          `json:"idle_min,omitempty"`   // gated only: before the held attempts, every endpoint serves warm-up requests and then IdleMin minutes pass without traffic (simulated: the collector's time stamps move into the past)
-	UptimeMin int          `json:"uptime_min,omitempty"` // gated only: while the attempts are held, the collector's periodic clean-up pass runs as it would after this many minutes of uptime
-	Abort    bool          `json:"abort,omitempty"` // the client closes its socket after the first body byte
+	Engine    string        `json:"engine"`
+	Balancer  string        `json:"balancer"`
+	Route     string        `json:"route"` // proxy | anthropic | anthropic-stream
+	EPs       []scen.EPSpec `json:"eps"`
+	Clients   int           `json:"clients"`
+	Gated     bool          `json:"gated,omitempty"`      // backends hold every request until all clients are held
+	Flap      bool          `json:"flap,omitempty"`       // gated only: while the attempts are held every endpoint fails one health check and passes the next (model discovery enabled, so the recovery hook of the discovery service runs)
+	IdleMin   int           `json:"idle_min,omitempty"`   // gated only: before the held attempts, every endpoint serves warm-up requests and then IdleMin minutes pass without traffic (simulated: the collector's time stamps move into the past)
+	UptimeMin int           `json:"uptime_min,omitempty"` // gated only: while the attempts are held, the collector's periodic clean-up pass runs as it would after this many minutes of uptime
+	Abort     bool          `json:"abort,omitempty"`      // the client closes its socket after the first body byte
 }
 
 type ReqObs struct {
@@ -46,7 +48,7 @@ type ReqObs struct {
 	BodyLen   int      `json:"body_len"`
 	Aborted   bool     `json:"aborted,omitempty"`
 	Marker    bool     `json:"marker,omitempty"` // translator route: the Anthropic message is complete (message_stop event / "type":"message")
-	Contacted []string `json:"contacted"` // backends that saw this request, in arrival order
+	Contacted []string `json:"contacted"`        // backends that saw this request, in arrival order
 }
 
 type Counters struct {
@@ -62,6 +64,7 @@ type Mid struct {
 	Held     map[string]int `json:"held"` // requests currently waiting inside each backend
 	Finished int            `json:"finished"`
 	C        Counters       `json:"c"`
+	Flapped  bool           `json:"flapped,omitempty"`
 }
 
 type Obs struct {
@@ -217,7 +220,17 @@ func Run(sc *Scenario) *Obs {
 			b.Close()
 		}
 	}()
-	s, err := stack.Start(stack.Opts{Engine: sc.Engine, Balancer: sc.Balancer, Profile: "auto", EPs: eps})
+	if sc.Flap {
+		for _, b := range backends {
+			b.Listing = func(path string) (int, string) {
+				if strings.HasSuffix(path, "/models") {
+					return 200, `{"object":"list","data":[{"id":"m1","object":"model"}]}`
+				}
+				return 0, ""
+			}
+		}
+	}
+	s, err := stack.Start(stack.Opts{Engine: sc.Engine, Balancer: sc.Balancer, Profile: "auto", EPs: eps, ModelDiscovery: sc.Flap})
 	if err != nil {
 		obs.StartErr = err.Error()
 		return obs
@@ -374,6 +387,23 @@ func Run(sc *Scenario) *Obs {
 		fmu.Lock()
 		m.Finished = int(finished)
 		fmu.Unlock()
+		if sc.Flap {
+			// every endpoint fails a health check and passes the next one, through the real checker
+			if s.Disc != nil {
+				if hc, err := s.Disc.GetHealthChecker(); err == nil {
+					for _, b := range backends {
+						atomic.StoreInt32(&b.HealthStatus, 503)
+					}
+					_ = hc.RunHealthCheck(context.Background(), true)
+					for _, b := range backends {
+						atomic.StoreInt32(&b.HealthStatus, 0)
+					}
+					_ = hc.RunHealthCheck(context.Background(), true)
+					time.Sleep(250 * time.Millisecond) // the recovery hook runs in its own goroutine
+					m.Flapped = true
+				}
+			}
+		}
 		if sc.UptimeMin > 0 {
 			time.Sleep(10 * time.Millisecond) // the held attempts have been in flight for a while
 			stats.VerifCleanupPassAfter(s.Stats, time.Duration(sc.UptimeMin)*time.Minute)
@@ -411,7 +441,9 @@ func Run(sc *Scenario) *Obs {
 		}
 		time.Sleep(10 * time.Millisecond)
 	}
-	stack.Quiesce(func() string { return fmt.Sprint(s.Stats.GetConnectionStats(), s.Stats.GetProxyStats(), s.Stats.GetTranslatorStats()) })
+	stack.Quiesce(func() string {
+		return fmt.Sprint(s.Stats.GetConnectionStats(), s.Stats.GetProxyStats(), s.Stats.GetTranslatorStats())
+	})
 	type hit struct {
 		seq  int64
 		name string
